@@ -21,6 +21,9 @@ from .common import (ApiUnit, SendSeam, oname, get_cls, bare_client, varbind, is
 PROPS = ("C04", "C07", "C14")
 
 
+LARGE_QUICK, LARGE_THOROUGH, LARGE_GETNEXT = 70, 300, 12
+
+
 class OpUnit(ApiUnit):
     props = PROPS
     k = 1          # number of requested OIDs
@@ -33,6 +36,12 @@ class OpUnit(ApiUnit):
             o = interp.ctx.fresh_oid("resp_oid%d" % j)
             v = self.xv.fresh(interp.ctx, "resp_val%d" % j)
             out.append(varbind(self.rt, interp, o, v))
+        if getattr(self, "distinct_response", False):
+            # LARGE shapes: the answer's OIDs are pairwise distinct from the start (otherwise every insertion into a dict keyed
+            # by OID forks on every earlier key)
+            for i in range(n):
+                for j in range(i + 1, n):
+                    interp.ctx.assume(Not(interp.eq(out[i][0], out[j][0])))
         return out
 
     def check_common_request(self, interp, seam, cls_name, oids, values=None):
@@ -431,4 +440,15 @@ def units(tier):
         limit = ns + m * nr
         for kr in sorted({0, max(limit - 1, 0), limit, limit + 1}):
             us.append(BulkGet(ns, nr, m, kr))
+    # LARGE shapes: one request well above any size the small shapes reach (a chunk size, a cap, a threshold that only acts on
+    # long lists changes the behaviour of these and of nothing above)
+    big = LARGE_THOROUGH if tier == "thorough" else LARGE_QUICK
+    us.append(MultiGet(big, big))
+    us.append(MultiGet(big, big - 1))
+    us.append(MultiGetNext(LARGE_GETNEXT, LARGE_GETNEXT))
+    ld = 26 if tier == "thorough" else 12
+    for u in (MultiSet(26, 26), BulkGet(2, ld // 2 - 1, 2, ld), BulkGet(0, ld, 1, ld)):
+        u.distinct_response = True
+        u.name = u.name[:-1] + ",answer OIDs pairwise distinct]"
+        us.append(u)
     return us
